@@ -23,6 +23,8 @@ mod pciref;
 mod c17_vsock;
 mod c18_vsockconn;
 mod vsock_world;
+mod c15_console;
+mod c19_events;
 
 use proto::RunResult;
 use runner::{Ctx, Tier};
@@ -105,6 +107,8 @@ fn main() {
                 "C12" => c12_pcibus::run(&ctx),
                 "C17" => c17_vsock::run(&ctx),
                 "C18" => c18_vsockconn::run(&ctx),
+                "C15" => c15_console::run(&ctx),
+                "C19" => c19_events::run(&ctx),
                 _ => {
                     eprintln!("unknown property {}", prop);
                     std::process::exit(2)
